@@ -240,6 +240,29 @@ def tables_after_use(ctx):
                 fn()
             except Exception:  # noqa
                 pass
+    # failure paths: validations that raise half-way (metadata with several children, unknown children, both modes, also
+    # through a tree walk and strict prune) must leave the tables as they were
+    for kids_ in (["unitList", "stuff"], ["title", "title", "zz"], []):
+        for fn_name in ("node-ff", "node-cc", "tree-ff", "tree-cc", "prune"):
+            Node.store.clear()
+            am = Node("additionalMetadata")
+            md = Node("metadata")
+            am.add_child(md)
+            for k_ in kids_:
+                md.add_child(Node(k_))
+            try:
+                if fn_name == "node-ff":
+                    validate.node(md)
+                elif fn_name == "node-cc":
+                    validate.node(md, [])
+                elif fn_name == "tree-ff":
+                    validate.tree(am)
+                elif fn_name == "tree-cc":
+                    validate.tree(am, [])
+                else:
+                    validate.prune(am, True)
+            except Exception:  # noqa
+                pass
     # every public accessor of every rule, with its answers edited by the caller afterwards (an accessor that hands
     # out the table's own lists lets callers, or itself, change the shipped rules)
     nacc = 0
